@@ -3,7 +3,7 @@ import json
 import random
 
 import p_sync
-from vlib import Broken, Verdict, read_ndjson, write_ndjson, require_coverage
+from vlib import unreproduced as vlib_unreproduced, Broken, Verdict, read_ndjson, write_ndjson, require_coverage
 
 TRACE_CFG = "SPECIFICATION Spec\nCHECK_DEADLOCK TRUE\n"
 OPTSETS = [dict(uid=u, gid=g, links=l, devices=d, specials=s, checksum=c) for (u, g, l, d, s, c) in
@@ -109,8 +109,7 @@ def check(w):
         byid = {s["id"]: s for s in scen}
         obs2, _ = run(w, [byid[i] for i in sorted(rej)], "confirm")
         rej2, _, _ = validate(w, obs2, "confirm")
-        if set(rej) - set(rej2):
-            raise Broken("rejections not reproduced on re-run")
+        vlib_unreproduced(v, rej, rej2)
         for o in obs2:
             if o["id"] in rej2:
                 s = byid[o["id"]]
